@@ -49,11 +49,22 @@ def canon(h):
             h.idle_since is not None, idx(ERRS, h.error), h.completed_at is not None)
 
 
+# updated_at of successive writes, in no particular order and with different UTC offsets: `update` replaces the row
+# whatever the timestamps say (the field is not part of the canonical form; it only travels with the write)
+from datetime import timedelta as _td  # noqa: E402
+_UPD = [None, T0, T0 + _td(hours=1), T0 - _td(hours=1), None,
+        (T0 + _td(minutes=30)).astimezone(timezone(_td(hours=5))), T0 - _td(days=1), T0 + _td(seconds=1),
+        (T0 - _td(minutes=10)).astimezone(timezone(-_td(hours=7)))]
+_upd_ix = [0]
+
+
 def build(c):
     i, w, s, r, idle, e, done = c
+    _upd_ix[0] += 1
     return PersistentHandler(handler_id=IDS[i], workflow_name=WFS[w], status=STATUSES[s],
                              run_id=None if r is None else RUNS[r], error=None if e is None else ERRS[e],
-                             idle_since=T0 if idle else None, completed_at=T0 if done else None)
+                             idle_since=T0 if idle else None, completed_at=T0 if done else None,
+                             updated_at=_UPD[(_upd_ix[0] * 7) % len(_UPD)])
 
 
 def g_opt(o):
